@@ -51,6 +51,16 @@ def check_canonical(doc, obs):
             continue
         try:
             tree = DiffX.from_bytes(b)
+            # the same document inside a larger stream, positioned at its
+            # first byte (e.g. after a mail / HTTP envelope)
+            import io as _io
+            st = _io.BytesIO(b'envelope\r\n\r\n' + b)
+            st.seek(12)
+            t2 = DiffX.from_stream(st)
+            obs.count('from_stream_at_offset')
+            if not (t2 == tree):
+                obs.violation('from_stream_at_offset_differs', case)
+                return
         except Exception as e:
             obs.violation('canonical_file_rejected:%s'
                           % common.exc_mechanism(e), case, repr(e)[:300])
@@ -199,6 +209,21 @@ def run(ctx):
         for kind, sec, inh in recipe.iter_content(doc):
             if kind == 'preamble' and sec.get('indent') is None:
                 sec['indent'] = 0
+        if k % 5 == 0:
+            # any accepted spelling of the codec names (what a producer
+            # spelled must come back exactly as spelled)
+            from mon.gen import codecs_cat
+            def respell(e):
+                try:
+                    sp = codecs_cat.spellings(codecs_cat.canonical(e))
+                    return rng.choice(sp) if sp else e
+                except Exception:
+                    return e
+            for c in [doc] + doc['changes'] + [f for ch in doc['changes']
+                                                for f in ch['files']]:
+                if c.get('encoding') and c is not doc:
+                    c['encoding'] = respell(c['encoding'])
+            obs.count('canonical:respelled_container_encodings')
         check_canonical(doc, obs)
         if k < 1 and ctx.index == 0:
             obs.sample({'canonical_recipe': doc})
